@@ -64,6 +64,8 @@ def run(ctx):
                                                               {'compact': True}, {'char': '\t', 'width': 1}, {'width': 4}, {'comma_first': True, 'indent_columns': True}])
     ctx.rule('R6.11', 'the serializer changes nothing but unquoted line ends and blanks at line ends (sample texts interpreted)', floor=1)
     RF.check_serializer_sim(ctx, 'R6.11')
+    ctx.rule('R6.15', 'the whitespace strip_whitespace removes next to ( ) , is lexically insignificant', floor=1)
+    RF.check_tight_delimiters(ctx, 'R6.15')
     ctx.rule('R6.8', 'operator spacing: the blank put behind / in front of an operator does not change how the text lexes', floor=1)
     RF.check_operator_spacing_tokens(ctx, 'R6.8')
     ctx.rule('R6.7', 'statement edges: removing the first/last child of a statement cannot fuse it with the neighbouring statement', floor=1)
